@@ -478,6 +478,15 @@ def c04_family(tier):
                                                                     sink('snk', srcs, stall(k, S)), sink('other', ['src;main>x'])]),
                               quiet=S + 800, horizon=S + 1500))
 
+    # a balanced publisher: the stalled worker shares its branch with a second synchronized consumer (a logger) that keeps asking, the
+    # other branch keeps the stream going - nothing may be sent towards the stalled worker's branch without its request
+    for k in [2, 4]:
+        S  = 1500
+        fs = balance(N, (0, 0), split_period=20)
+        fs[1]['ops'] = stall(k, S)
+        fs.append(sink('log0', ['spl;main>logged']))
+        out.append(timely(scn(f'balanced-shared-branch/k{k}/S{S}', fs), quiet=S + 800, horizon=S + 1500))
+
     # stall longer than the connection timeout, consumer not a required output: producer may move on (nothing to check but order)
     for k in [1]:
         out.append(timely(scn(f'oneof2-timeout/k{k}', [src(N, required='other', period=30), sink('snk', ['src'], stall(k, 2500)),
